@@ -35,7 +35,7 @@ TESTMAP = [
     (r"strawberryfields/(ops|program|program_utils|engine|parameters|result|device)\.py", ["tests/frontend", "tests/integration/test_ops_integration.py", "tests/integration/test_engine_integration.py",
                                                                                          "tests/integration/test_parameters_integration.py", "tests/integration/test_measurement_integration.py"]),
 ]
-FLAKY = ("cluster", "g2", "hong_ou_mandel", "test_average_fidelity", "test_default_sf_logger", "test_parameters_with_operations")
+FLAKY = ("cluster", "g2", "hong_ou_mandel", "test_average_fidelity", "test_default_sf_logger", "test_parameters_with_operations", "Nullifier")
 
 
 def sh(cmd, **kw):
